@@ -776,6 +776,26 @@ func decodeCalls(fn *ssa.Function, mpar *ssa.Parameter) []*ssa.Call {
 }
 
 func c08UnaryInproc(c *core.Ctx, key string, fn *ssa.Function) {
+	// the receive loop may have been split off into a single-use step function that the entry point ends with
+	outer := fn
+	core.Instrs(fn, func(in ssa.Instruction) {
+		call, ok := in.(*ssa.Call)
+		if !ok {
+			return
+		}
+		if h := call.Call.StaticCallee(); h != nil && h.Blocks != nil && core.InlineSite[h] == in && h.Signature.Recv() == nil {
+			hasSel := false
+			core.Instrs(h, func(x ssa.Instruction) {
+				if _, isSel := x.(*ssa.Select); isSel {
+					hasSel = true
+				}
+			})
+			if hasSel && len(core.CallsIn(h, func(_ *ssa.Call, ci core.CallInfo) bool { return ci.Name == "Copy" })) > 0 {
+				fn = h
+			}
+		}
+	})
+	defer func() { _ = outer }()
 	// the response copy
 	var respPar *ssa.Parameter
 	for _, pp := range fn.Params {
@@ -862,13 +882,16 @@ func c08UnaryInproc(c *core.Ctx, key string, fn *ssa.Function) {
 			continue
 		}
 		n++
-		for _, l := range core.ErrLeaves(r.Results[0], r) {
+		for _, l := range expandLeaves(core.ErrLeaves(r.Results[0], r), 0) {
 			if g, ok := core.GlobalLoad(l.V); ok && g == "io.EOF" {
 				bad = "returns the bare io.EOF (not a status error)"
 			}
 			if l.Class == core.ErrNil {
 				// allowed only when a response was received
-				if flagPhi == nil || !core.GuardedBy(r, func(f core.Fact) bool { return f.Op == token.ILLEGAL && !f.Neg && f.X == ssa.Value(flagPhi) }) {
+				isFlag := func(f core.Fact) bool {
+					return f.Op == token.ILLEGAL && !f.Neg && (f.X == ssa.Value(flagPhi) || core.ResolveFree(f.X) == ssa.Value(flagPhi))
+				}
+				if flagPhi == nil || !(core.GuardedBy(r, isFlag) || core.LeafGuarded(l, isFlag)) {
 					bad = "returns nil although no response was received"
 				}
 			}
@@ -878,9 +901,9 @@ func c08UnaryInproc(c *core.Ctx, key string, fn *ssa.Function) {
 		"channel-closed arm "+bad)
 	// nil handler result ⇒ error frame (server goroutine)
 	okNil := false
-	core.InstrsDeep(fn, func(f *ssa.Function, in ssa.Instruction) {
+	core.InstrsDeep(outer, func(f *ssa.Function, in ssa.Instruction) {
 		call, ok := in.(*ssa.Call)
-		if !ok || f == fn {
+		if !ok || f == outer {
 			return
 		}
 		// a frame write whose data field holds the handler's result
